@@ -501,7 +501,9 @@ def run(rep: common.Report):
     rep.explanation = __doc__
     # assumed-contract cross-checks (a failure is a checker error, exit 3, never a violation)
     from vc.fin import upper_axioms, od_crosscheck
-    for cc in (upper_axioms.run(rep.seed), od_crosscheck.run(rep.seed, 150 if rep.tier == "quick" else 1500)):
+    from vc.fin import engine_vs_cpython_maps
+    for cc in (upper_axioms.run(rep.seed), od_crosscheck.run(rep.seed, 150 if rep.tier == "quick" else 1500),
+               engine_vs_cpython_maps.run(make_engine, KEY_METHODS, rep.seed)):
         rep.crosschecks.append(cc)
         if not cc["ok"]:
             rep.error(f"assumed-contract cross-check failed: {cc['name']}: {cc['failures']}")
